@@ -2,8 +2,11 @@
 import copy
 from . import core, eng, gen, engcheck
 
-THEOREMS = ["derivable_perm_rules", "derivable_perm_heads", "derivable_input_ext", "inputDB_perm", "run_perm_invariant", "derivable_rename_rels", "derivable_rename_consts", "derivable_rename_vars", "sat_swap_indep", "derivable_swap_indep"]
-TRUSTED = ["Lean 4.33.0 kernel", "axioms: propext, Classical.choice, Quot.sound only (audited per theorem)",
+THEOREMS = ["derivable_perm_rules", "derivable_perm_heads", "derivable_input_ext", "inputDB_perm", "run_perm_invariant", "derivable_rename_rels", "derivable_rename_consts", "derivable_rename_vars", "sat_swap_indep", "derivable_swap_indep", "runPhys_perm_invariant", "runPhysPar_perm_invariant", "runPhys_perm_heads_invariant", "runPhysPar_perm_heads_invariant", "runPhys_rename_rels", "runPhysPar_rename_rels", "derivable_rulesEquiv"]
+TRUSTED = ["Props/C06Phys.lean: the invariance statements over the PHYSICAL engines (generated code of ascent! and of ascent_par!, any schedules / pools): two runs whose programs differ by a permutation of the rules, by permuted "
+           "heads inside rules, or by an injective renaming of the relations, from start values holding permuted row vectors, under any two valid SCC orders, compute the same facts (runPhys_perm_invariant, "
+           "runPhysPar_perm_invariant, .._perm_heads_invariant, .._rename_rels)",
+           "Lean 4.33.0 kernel", "axioms: propext, Classical.choice, Quot.sound only (audited per theorem)",
            "statement: Props/C06.lean (least model invariant under permutation of rules / heads / input rows / independent body items, "
            "transferred to the engine by run_eq_leastModel)",
            "metamorphic tie: each base program is compiled in several variants (shuffled rules, declarations, heads, independent body items, "
@@ -223,7 +226,7 @@ def canon(c, out):
 
 
 def check(tier, replay=None):
-    return engcheck.run_property("C06", tier, modules=["AscentVerif.Props.C06"], theorems=THEOREMS, trusted=TRUSTED, group="c06",
+    return engcheck.run_property("C06", tier, modules=["AscentVerif.Props.C06", "AscentVerif.Props.C06Phys"], theorems=THEOREMS, trusted=TRUSTED, group="c06",
                                  build=build, oracle=oracle, canon=canon, what="metamorphic variants of compiled programs",
                                  rule="base programs (general and function-free) x variants {rule / declaration / head-clause / independent-body-item permutations with "
                                       "shuffled input vectors; variable and relation renamings incl. trailing-underscore names; i64 -> i32 and i64 -> String through an "
